@@ -819,7 +819,9 @@ hwloc__xml_import_object(hwloc_topology_t topology,
 	goto error_with_object;
       }
     } else if (hwloc__obj_type_is_memory(obj->type)) {
-      if (hwloc__obj_type_is_io(parent->type) || HWLOC_OBJ_MISC == parent->type) {
+      if (hwloc__obj_type_is_io(parent->type) || HWLOC_OBJ_MISC == parent->type
+	  /* NUMA nodes are the leaves of the memory hierarchy */
+	  || HWLOC_OBJ_NUMANODE == parent->type) {
 	if (hwloc__xml_verbose())
 	  fprintf(stderr, "%s: Memory object %s cannot be child of non-normal-or-memory parent %s\n",
 		  state->global->msgprefix, hwloc_obj_type_string(obj->type), hwloc_obj_type_string(parent->type));
